@@ -34,7 +34,7 @@ func runSelectFunction(c *core.Ctx, selectPart bool) {
 				return false
 			}
 			id, ok := an.Unparen(call.Fun).(*ast.Ident)
-			if !ok || id.Name != "helper" {
+			if !ok || !isRecClosure(info, id) {
 				return false
 			}
 			tv := info.Types[call.Args[0]]
